@@ -198,12 +198,20 @@ def initial : BaseKind → Ty
   | .empty => .empty
   | .enum ns => .enum ns
 
-def partOf {α} (conv : Bytes → Option α) (p : Bytes × Bytes) : Option (Part α) :=
+/-- a part as written: (lower, upper) boundary texts; a part that is one boundary only has it twice — the keyword
+    alone, `max` or `min`, is (after the repair) the single value max or min of the base `rs` -/
+def partOf {α} [Inhabited α] (conv : Bytes → Option α) (rs : List (α × α)) (p : Bytes × Bytes) : Option (Part α) :=
+  if p.1 = msg "max" && p.2 = msg "max" then some ⟨some (lastHi rs), none⟩
+  else if p.1 = msg "min" && p.2 = msg "min" then some ⟨none, some (firstLo rs)⟩
+  else
   let lo := if p.1 = msg "min" then some none else (conv p.1).map some
   let hi := if p.2 = msg "max" then some none else (conv p.2).map some
   match lo, hi with
   | some l, some h => some ⟨l, h⟩
   | _, _ => none
+
+def singleKeyword (p : Bytes × Bytes) : Bool :=
+  (p.1 = msg "max" && p.2 = msg "max") || (p.1 = msg "min" && p.2 = msg "min")
 
 /-- apply one level's restriction (`getRangeBoundary` / `getLength` + `validateRestrictions`) -/
 def applyLevel (t : Ty) (lv : Level) : Option Ty :=
@@ -211,21 +219,21 @@ def applyLevel (t : Ty) (lv : Level) : Option Ty :=
   | none => some t
   | some parts =>
     -- the parser has already refused boundaries that are not min / max / integer-value / decimal-value
-    if !(parts.all fun (lo, hi) => (lo = msg "min" || YC.numBoundaryOK lo) && (hi = msg "max" || YC.numBoundaryOK hi)) then none else
+    if !(parts.all fun p => singleKeyword p || ((p.1 = msg "min" || YC.numBoundaryOK p.1) && (p.2 = msg "max" || YC.numBoundaryOK p.2))) then none else
     match t with
     | .int w rs =>
       if lv.isLength then none else
-      (parts.mapM (partOf boundaryInt)).bind fun ps => (restrict intOps rs ps).map (.int w)
+      (parts.mapM (partOf boundaryInt rs)).bind fun ps => (restrict intOps rs ps).map (.int w)
     | .uint w rs =>
       if lv.isLength then none else
-      (parts.mapM (partOf fun b => (boundaryInt b).bind fun v => if v < 0 then none else some v)).bind fun ps =>
+      (parts.mapM (partOf (fun b => (boundaryInt b).bind fun v => if v < 0 then none else some v) rs)).bind fun ps =>
         (restrict intOps rs ps).map (.uint w)
     | .dec fd rs =>
       if lv.isLength then none else
-      (parts.mapM (partOf sfOfDecimalText)).bind fun ps => (restrict sfOps rs ps).map (.dec fd)
+      (parts.mapM (partOf sfOfDecimalText rs)).bind fun ps => (restrict sfOps rs ps).map (.dec fd)
     | .str lens n =>
       if !lv.isLength then none else
-      (parts.mapM (partOf fun b => (boundaryInt b).bind fun v => if v < 0 then none else some v)).bind fun ps =>
+      (parts.mapM (partOf (fun b => (boundaryInt b).bind fun v => if v < 0 then none else some v) lens)).bind fun ps =>
         (restrict intOps lens ps).map (fun l => .str l n)
     | _ => none          -- range / length do not apply to boolean, empty, enumeration
 
